@@ -16,7 +16,9 @@
 //	(5) determinism of the entry: 5 in-process compilations, 3 separate processes,
 //	(6) all merges of the cache operations of two threads compiling two DIFFERENT modules in one
 //	    process on one runtime and directory (xmod.go): every final name must hold the entry its
-//	    module produces when compiled alone.
+//	    module produces when compiled alone,
+//	(7) the writer goroutine dies inside Add (panic / runtime.Goexit / read error after k bytes of the
+//	    content; inside every step under CompileModule) while the process lives on (die.go).
 //
 // After every state a recovery runs in a supervised child: fresh cache object + fresh runtime on
 // that directory, CompileModule, instantiate, call every export, compare with the uncached
@@ -678,6 +680,9 @@ func genCases(p *Plan) []Case {
 	thorough := p.Tier == "thorough"
 	var cs []Case
 	for mi, m := range p.Mods {
+		if m.Spec.Only != "" {
+			continue // used by one family only (see dieCases)
+		}
 		lay := m.layout()
 		// (5) determinism in 3 separate processes
 		for r := 0; r < 3; r++ {
@@ -743,7 +748,13 @@ func genCases(p *Plan) []Case {
 	// (3) concurrent writers (smallest module, and in thorough also a mid-sized one)
 	concMods := []int{0}
 	if thorough {
-		concMods = append(concMods, len(p.Mods)/2)
+		general := 0
+		for _, m := range p.Mods {
+			if m.Spec.Only == "" {
+				general++
+			}
+		}
+		concMods = append(concMods, general/2)
 	}
 	for n, mi := range concMods {
 		confs := []string{"w2-states", "w2-reader", "w3-coarse"}
@@ -767,6 +778,8 @@ func genCases(p *Plan) []Case {
 	// (6) different modules compiled concurrently in one process against one directory; first in the
 	// plan so that this verdict is reached before the stop-after-20-violations rule can cut the run
 	cs = append(xmodCases(p), cs...)
+	// (7) the writer goroutine dies (panic / Goexit / read error) inside Add, the process lives on
+	cs = append(cs, dieCases(p)...)
 	return cs
 }
 
@@ -894,6 +907,8 @@ func runCase(p *Plan, c Case) caseResult {
 		return runConc(mi, c)
 	case "xmod":
 		return runXmod(p, c)
+	case "die":
+		return runDie(mi, c)
 	}
 	fw.Fatalf("unknown case kind %q", c.Kind)
 	return caseResult{}
@@ -1078,7 +1093,10 @@ func main() {
 	// ---- preparation + (5a) determinism in-process: 5 compilations with fresh engines
 	var inproc int64
 	var imu sync.Mutex
-	fw.Parallel(len(specs), runtime.NumCPU(), func(i int) {
+	// Sequential on purpose: the reference entries and step logs must come from a process in which
+	// nothing else is being compiled (a shared-scratch-state bug would otherwise corrupt the references
+	// or crash this process instead of yielding the deterministic verdict of family 6).
+	fw.Parallel(len(specs), 1, func(i int) {
 		mi, pv := prepare(specs[i])
 		plan.Mods[i] = mi
 		report(map[string]any{"tier": run.Tier, "spec": specs[i], "case": Case{Kind: "control", Flow: "intact"}}, pv)
@@ -1229,6 +1247,7 @@ func main() {
 			"version_variants":           []string{"shorter", "longer", "same-length-different", "prefix-of-current", "current-as-prefix", "empty", "len255-claimed", "len255-real"},
 			"fault_errnos":               []string{"ENOSPC", "EIO", "ENOSPC after a short write (write steps)"},
 			"interleavings":              "w2-states: 2 writers x all merges of their mutating steps, full recovery in every intermediate state; w2-reader: 2 writers + reader (open, read as separate steps); w3-coarse: 3 writers, points create/write/rename; thorough adds w3-full and w3-reader-coarse",
+			"writer_goroutine_deaths":    "flow add: reader of a directly driven fileCache.Add panics / Goexits / returns (n>0, err) after k in {0,1,len/2,len-1} bytes (<= 4 KiB reads), every module incl. a 97 KiB entry; flow compile: panic / Goexit inside every step of the miss flow (3 copy chunks) under CompileModule",
 			"cross_module_interleavings": "x2: two threads in one process/runtime each CompileModule of a DIFFERENT module (pairs small+big, big+small, dwarf+plain) on one cache directory, all merges of their points open/create/3 write chunks/rename, GOMAXPROCS(1); thorough adds x3-coarse (three modules, points open/create/write/rename)"},
 		Extra: map[string]any{"prep_wall_s": prepWall, "in_process_recompilations": inproc, "free_running_concurrent_compilations_compared": concN, "other_process_compilations": detProc, "interleaving_counters": extra, "deterministic_compilation_verifier_build": dv},
 	}, []string{
@@ -1278,6 +1297,8 @@ func caseClass(c Case) string {
 		return fmt.Sprintf("%s-%s", c.Flow, c.Errno)
 	case "conc", "xmod":
 		return c.Conf
+	case "die":
+		return c.Flow + "-" + c.Errno
 	case "trunc":
 		return "truncated-entry"
 	case "hole":
